@@ -63,12 +63,11 @@ def _protocol(kinds, maxtasks, syn, silence, consumed, mem, want):
     if maxtasks and ran > maxtasks:
         return fail('C09:quota-exceeded')
     # ACK carries the acceptance time read before the task ran, READY the own job's result
-    clock = 100
-    k = 0
     for m in msgs:
         if m[0] == bp.ACK:
-            clock += 1
-            if m[1][2] != clock:
+            # "the acceptance time": read once the request has arrived (not when the worker went idle) and before the task runs
+            jid, t_ack = m[1][0], m[1][2]
+            if not (ctl.arrived.get(jid, 0) < t_ack and (jid not in ctl.entered or t_ack <= ctl.entered[jid])):
                 return fail('C03:ACK-time')
             if m[1][4] != (8 if syn is not None else None):
                 return fail('C03:ACK-synq-fd')
